@@ -30,6 +30,7 @@ type Fn struct { // function value
 	F      *ssa.Function
 	Free   []SV
 	Opaque Term
+	CID    Term // identity of a closure object (one per executed MakeClosure); specifications only
 }
 
 func (Sc) isSV() {}
@@ -479,6 +480,10 @@ func (c *FnCtx) scalarOf(v SV, want Sort) Term {
 	case Fn:
 		if x.Opaque.Valid() {
 			return x.Opaque
+		}
+		if x.CID.Valid() {
+			// a closure object stored in memory is known by its identity
+			return x.CID
 		}
 		if x.F != nil {
 			return c.funcRef(x.F)
